@@ -5,8 +5,10 @@ Never reads the clock: CdsShortTimestamp.now()/from_now()/ms_of_today() are not 
 from __future__ import annotations
 
 import datetime
+from fractions import Fraction
 
 from mc import domains as D
+from mc.alias import Keeper
 from mc.rec import Rec, unhex
 from ref import cds as R
 
@@ -14,25 +16,45 @@ PROPERTY = "C14"
 LEVEL = "model_checking"  # bounded-exhaustive enumeration of executions against a reference model (DESIGN.md 1, 2.1)
 EXHAUSTIVE = True
 RULE = (
-    "a case is one of: a (day, ms) stamp [construct, pack, unpack, read_from_raw, Unix-seconds and datetime views, "
-    "strict monotonicity against the previous stamp of the ascending sweep]; a UTC datetime given to from_datetime; "
-    "a (stamp, timedelta) addition; a refused input (P-field value or short length) through one decoder entry point. "
+    "a case is one of: a (day, ms) stamp [construct, pack, unpack, read_from_raw, Unix-seconds and datetime views of all "
+    "three objects, strict monotonicity against the previous stamp of the ascending sweep]; a UTC datetime given to "
+    "from_datetime (fields, octets, and for whole-millisecond datetimes both views); a (stamp, timedelta) addition; a "
+    "refused input (P-field value or short length) through one decoder entry point; a HISTORY = (start state, sequence of "
+    "mutators, observation mode): start state in {constructor, unpack, empty+read_from_raw, from_datetime, from_datetime "
+    "of a datetime with 999 us beyond the millisecond}, mutators in {+ one of 11 timedeltas, + the timedelta that lands "
+    "one ms before / exactly on / one ms after the next midnight of the CURRENT model value, read_from_raw of one of 2 "
+    "other stamps} (16 symbols), every sequence up to the depth bound (an OverflowError ends a history), observation "
+    "mode in {all observers after every step including before the first one, observers only after the last step - for "
+    "every prefix length}; after each observed step fields, octets and both views are compared with the reference "
+    "value of the model (an integer pair advanced by ref.cds.add). "
+    "Independence (mc.alias.Keeper): every stamp object the library handed out (constructed, decoded, read_from_raw, "
+    "from_datetime, result of +) and the very object every pack() returned is held and re-observed after the following "
+    "cases of the shard (octets first, then the stamps, whose observation packs them again); nothing that is not an "
+    "operand of a later operation may change. "
     "Stamps: every day 0..65535 x 9 boundary ms; 8 edge days x {every ms of the first and last two seconds, every "
     "second boundary -1/0/+1 ms}; thorough: every ms of the day for days 0, 4382, 4383, 65535. A stamp is counted "
     "distinct non-trivial when no earlier sweep of the enumeration contains the same (day, ms) (sweeps are nested "
-    "sets, membership is decided by the sweep definitions); the other kinds are disjoint by construction."
+    "sets, membership is decided by the sweep definitions); the other kinds are disjoint by construction (a history is "
+    "identified by start kind, start stamp, symbol sequence and observation mode; every one is enumerated once)."
 )
 BOUNDS = {
-    "quick": "days full(16) x 9 ms; 8 days x 263k ms; from_datetime 10 dates x 5 times x (1000 ms + 5 us values); "
-             "additions: edge product x 11 deltas + midnight landings, 4 days x last 500 ms x deltas 0..1000 ms; 256 P-fields x 3 bodies x 3 entries; lengths 0..6",
-    "thorough": "quick + every ms of days 0, 4382, 4383, 65535 (345.6e6 stamps); from_datetime 10 dates x every second of the day x 4 ms values; "
-                "additions 4 days x last 2000 ms x deltas 0..4000 ms",
+    "quick": "days full(16) x 9 ms; 8 days x 263k ms; from_datetime 10 dates x 9 times x (1000 ms + 5 us values) + every day 0..65535 x 3 times of day; "
+             "additions: edge product x 11 deltas + midnight landings, 4 days x last 500 ms x deltas 0..1000 ms, every day 0..65535 x 3 (stamp, delta) pairs; "
+             "histories: 5 start kinds x (72 edge stamps to depth 2, 12 of them to depth 3) x 16 symbols x 2 observation modes; "
+             "256 P-fields x 3 bodies x 3 entries; lengths 0..6; independence window: the results of the previous case (ring of 6-12 objects)",
+    "thorough": "quick + every ms of days 0, 4382, 4383, 65535 (345.6e6 stamps, each packed form / decoded stamp re-observed after the next stamp); "
+                "from_datetime 10 dates x every second of the day x 4 ms values; "
+                "additions 4 days x last 2000 ms x deltas 0..4000 ms; histories to depth 3 (72 stamps) and depth 4 (12 stamps)",
 }
 ASSUMPTIONS = [
     "reference ref/cds.py transcribes CCSDS 301.0-B-4 3.3 (CDS, 16-bit day, no sub-ms) with exact integer calendar arithmetic of datetime/timedelta; bound to the repository's vectors in selftest/st_ref_misc.py",
     "as_unix_seconds is a binary float: accepted within 2^-20 s of the exact rational (any sign or direction error is >= 1 ms)",
     "wrong P-fields = time-code id != 100 or 24-bit day segment; other CDS P-field variants are not judged (DESIGN.md section 5)",
     "monotonicity is checked between consecutive stamps of each ascending shard, not across shard borders (it follows from the per-stamp tolerance there)",
+    "a stamp built by from_datetime from a datetime that is not a whole millisecond may keep the sub-millisecond remainder in its views (0 <= view - (epoch + days + ms) < 1 ms), "
+    "also after additions; after read_from_raw the views are exact again",
+    "whether `a + d` is a new object or `a` itself is not judged: after an addition only the returned object is used; an object is held for the independence oracle only once it is no longer an operand",
+    "the state of a stamp after an addition that raised OverflowError is not judged (the history ends there)",
 ]
 
 MS = R.MS_PER_DAY
@@ -40,7 +62,12 @@ BOUNDARY_MS = [0, 1, 999, 1000, 43_199_999, 43_200_000, 86_399_000, 86_399_998, 
 EDGE_DAYS = [0, 1, 4382, 4383, 4384, 20000, 65534, 65535]
 FULL_DAYS = [0, 4382, 4383, 65535]
 DATES = [(1958, 1, 1), (1958, 1, 2), (1969, 12, 31), (1970, 1, 1), (1970, 1, 2), (2000, 2, 29), (2038, 1, 19), (2106, 2, 7), (2137, 6, 5), (2137, 6, 6)]
-TIMES = [(0, 0, 0), (0, 0, 1), (12, 0, 0), (23, 59, 58), (23, 59, 59)]
+# 03:14:07/08 on 2038-01-19 and 06:28:15/16 on 2106-02-07 are the 2^31 s and 2^32 s Unix-time boundaries
+TIMES = [(0, 0, 0), (0, 0, 1), (3, 14, 7), (3, 14, 8), (6, 28, 15), (6, 28, 16), (12, 0, 0), (23, 59, 58), (23, 59, 59)]
+# from_datetime on every day 0..65535: (ms of day) whole-millisecond values
+EVERY_DAY_MS = [0, 43_200_500, 86_399_999]
+# additions on every day 0..65535: (ms, timedelta): carry exactly at midnight, carry + one day, a day without carry
+EVERY_DAY_ADDS = [(86_399_999, (0, 0, 1000)), (86_399_999, (1, 0, 1000)), (43_200_000, (1, 0, 0))]
 ODD_US = [1, 499, 500, 999, 999_999]
 # timedeltas as (days, seconds, microseconds): 0, 1 us, 999 us, 1 ms, 999 ms, 1 s, 86399.999 s, 1 d, 1 d + 1 ms, 2 d 12 min 15 ms, 65535 d
 DELTAS = [(0, 0, 0), (0, 0, 1), (0, 0, 999), (0, 0, 1000), (0, 0, 999_000), (0, 1, 0), (0, 86399, 999_000), (1, 0, 0), (1, 0, 1000),
@@ -49,6 +76,58 @@ ENTRIES = ["unpack", "unpack_from_raw", "read_from_raw"]
 ADD_SWEEP_DAYS = [0, 4382, 65534, 65535]
 UTC = datetime.timezone.utc
 ZERO = datetime.timedelta(0)
+ONE_MS = datetime.timedelta(milliseconds=1)
+
+# ---- histories (explicit-state exploration of mutator sequences, DESIGN.md 2.3)
+START_KINDS = ["construct", "unpack", "read_from_raw", "from_datetime", "from_datetime_subms"]
+HIST_MODES = ["each", "end"]
+HIST_DEEP_DAYS = [0, 4382, 65534]
+HIST_DEEP_MS = [0, 999, 86_399_000, 86_399_999]
+READ_TARGETS = [(4382, 86_399_999), (20000, 1000)]
+#: the mutator alphabet: JSON-able symbols, resolved against the model's current value
+STEPS = [["add"] + list(td) for td in DELTAS] + [["mid", k] for k in (-1, 0, 1)] + [["read"] + list(t) for t in READ_TARGETS]
+
+
+def hist_depth(tier, d, ms):
+    deep = d in HIST_DEEP_DAYS and ms in HIST_DEEP_MS
+    if tier == "quick":
+        return 3 if deep else 2
+    return 4 if deep else 3
+
+
+def step_delta(cur, sym):
+    """timedelta of an 'add' / 'mid' symbol for the model value cur = (d, ms)"""
+    if sym[0] == "add":
+        return datetime.timedelta(days=sym[1], seconds=sym[2], microseconds=sym[3])
+    return datetime.timedelta(milliseconds=MS - cur[1] + sym[1])
+
+
+def model_step(cur, sym):
+    """next model value, or None when the addition must overflow"""
+    if sym[0] == "read":
+        return (sym[1], sym[2])
+    return R.add(cur[0], cur[1], step_delta(cur, sym))
+
+
+def histories(start, depth, every_length):
+    """All symbol sequences from `start`: a sequence ends at `depth` or at the first overflow;
+    every_length: also every proper prefix (mode 'end' observes only after the last step, so a
+    prefix is a different history there; in mode 'each' a prefix is contained in its extensions)."""
+    out = []
+
+    def walk(cur, prefix):
+        for sym in STEPS:
+            nxt = model_step(cur, sym)
+            seq = prefix + [sym]
+            if nxt is None or len(seq) == depth:
+                out.append(seq)
+            else:
+                if every_length:
+                    out.append(seq)
+                walk(nxt, seq)
+
+    walk(start, [])
+    return out
 
 
 def in_sweep(ms):
@@ -85,6 +164,10 @@ def shards(tier):
         for p in range(parts):
             items.append({"kind": "addsweep", "day": d, "w": w, "part": p, "parts": parts})
     items.append({"kind": "refuse", "tier": tier})
+    for k in START_KINDS:
+        for d in EDGE_DAYS:
+            for m in HIST_MODES:
+                items.append({"kind": "hist", "start": k, "day": d, "mode": m, "tier": tier})
     if tier == "thorough":
         for i in range(len(DATES)):
             for p in range(4):
@@ -96,20 +179,53 @@ def shards(tier):
 
 
 # ------------------------------------------------------------------------- oracles
-def check_stamp(rec: Rec, d: int, ms: int, nontrivial=True, light=False):
+def observe_stamp(o):
+    """plain-value observation of a held stamp (packs it again: held octets are re-observed first)"""
+    return (o.ccsds_days, o.ms_of_day, bytes(o.pack()), o.as_unix_seconds(), o.as_datetime())
+
+
+class Keep:
+    """The independence oracle of one shard: two mc.alias.Keeper rings, one for the very objects
+    pack() returned (re-observed first, by copying), one for stamp objects (whose observation
+    calls pack() again and so would overwrite a shared output buffer before it is looked at)."""
+
+    def __init__(self, rec, octet_depth=12, stamp_depth=8):
+        self.ko = Keeper(rec, PROPERTY, depth=octet_depth)
+        self.ks = Keeper(rec, PROPERTY, depth=stamp_depth)
+
+    def octets(self, obj, case, subject="CdsShortTimestamp.pack"):
+        self.ko.hold(subject, obj, bytes, case)
+
+    def stamp(self, subject, obj, case):
+        self.ks.hold("CdsShortTimestamp" + subject, obj, observe_stamp, case)
+
+    def recheck(self, case):
+        self.ko.recheck(case)
+        self.ks.recheck(case)
+
+    def flush(self):
+        self.ko.flush()
+        self.ks.flush()
+
+
+def check_stamp(rec: Rec, d: int, ms: int, nontrivial=True, light=False, keep=None):
     """One (day, ms) stamp.  Returns (unix_seconds, datetime) when the views are right (used for
     the monotonicity clause), None otherwise."""
     C = _C()
     case = {"kind": "stamp", "d": d, "ms": ms}
-    rec.case(nontrivial, ops=4 if light else 9)
+    rec.case(nontrivial, ops=4 if light else 11)
     ref = R.cds_short(d, ms)
     repro = f"CdsShortTimestamp({d}, {ms})  # pack(), unpack(), as_unix_seconds(), as_datetime(); see checks/c14.py check_stamp"
     try:
         s = C(d, ms)
-        got = bytes(s.pack())
+        packed = s.pack()
+        got = bytes(packed)
     except Exception as e:
         rec.violation("C14.encode/CdsShortTimestamp.pack/exception/" + type(e).__name__, case, repr(e), ref, repro=repro)
         return None
+    if keep is not None:
+        keep.octets(packed, case)
+    e = None
     if got != ref:
         rec.violation("C14.encode/CdsShortTimestamp.pack/octets", case, got, ref, repro=repro)
     if (s.ccsds_days, s.ms_of_day, bytes(s.pfield), s.len_packed) != (d, ms, b"\x40", 7):
@@ -123,17 +239,29 @@ def check_stamp(rec: Rec, d: int, ms: int, nontrivial=True, light=False):
                 rec.violation("C14.decode/CdsShortTimestamp.unpack_from_raw/fields", case, tuple(C.unpack_from_raw(ref)), (d, ms), repro=repro)
             e = C.empty()
             e.read_from_raw(ref)
-            if (e.ccsds_days, e.ms_of_day) != (d, ms) or bytes(e.pack()) != ref:
+            e_packed = e.pack()
+            if (e.ccsds_days, e.ms_of_day) != (d, ms) or bytes(e_packed) != ref:
                 rec.violation("C14.decode/CdsShortTimestamp.read_from_raw/fields", case, (e.ccsds_days, e.ms_of_day), (d, ms), repro=repro)
-            if bytes(u.pack()) != ref:
-                rec.violation("C14.decode/unpack-then-pack", case, bytes(u.pack()), ref, repro=repro)
-    except Exception as e:
-        rec.violation("C14.decode/CdsShortTimestamp.unpack/exception/" + type(e).__name__, case, repr(e), (d, ms), repro=repro)
+            u_packed = u.pack()
+            if bytes(u_packed) != ref:
+                rec.violation("C14.decode/unpack-then-pack", case, bytes(u_packed), ref, repro=repro)
+            if keep is not None:
+                keep.octets(e_packed, case)
+                keep.octets(u_packed, case)
+    except Exception as exc:
+        rec.violation("C14.decode/CdsShortTimestamp.unpack/exception/" + type(exc).__name__, case, repr(exc), (d, ms), repro=repro)
         return None
-    # views: of the constructed stamp and of the decoded one
+    if keep is not None:
+        keep.stamp("", s, case)
+        keep.stamp(".unpack", u, case)
+        if e is not None:
+            keep.stamp(".read_from_raw", e, case)
+    # views: of the constructed stamp, of the decoded one and of the one filled by read_from_raw
     exp_dt = R.as_datetime(d, ms)
     ok = True
-    for which, obj in (("constructed", s), ("decoded", u)):
+    for which, obj in (("constructed", s), ("decoded", u), ("read_from_raw", e)):
+        if obj is None:
+            continue
         us = obj.as_unix_seconds()
         dt = obj.as_datetime()
         wrong = []
@@ -151,6 +279,8 @@ def check_stamp(rec: Rec, d: int, ms: int, nontrivial=True, light=False):
             ok = False
             rec.violation("C14.views/CdsShortTimestamp.as_datetime/not-utc", case, repr(dt), repr(exp_dt), repro=repro)
             break
+    if keep is not None:
+        keep.recheck(case)
     if not ok:
         return None
     return us, dt
@@ -175,10 +305,10 @@ def check_mono(rec: Rec, prev, cur, prev_key, cur_key):
                       [repr(prev[0]), repr(prev[1]), repr(cur[0]), repr(cur[1])], "strictly increasing")
 
 
-def sweep(rec: Rec, day, ms_values, nontrivial_fn, light=False):
+def sweep(rec: Rec, day, ms_values, nontrivial_fn, light=False, keep=None):
     prev, prev_key = None, None
     for ms in ms_values:
-        cur = check_stamp(rec, day, ms, nontrivial_fn(ms), light)
+        cur = check_stamp(rec, day, ms, nontrivial_fn(ms), light, keep)
         check_mono(rec, prev, cur, prev_key, (day, ms))
         prev, prev_key = cur, (day, ms)
 
@@ -197,13 +327,15 @@ def sweep_light(rec: Rec, day, lo, hi):
     close = R.unix_seconds_close
     seen = set()
     prev_us = prev_dt = None
+    held = None  # (packed object, its octets, decoded stamp, constructed stamp) of the previous stamp
     bad = 0
     for ms in range(lo, hi):
         ref = prefix + ms.to_bytes(4, "big")
         anomaly = None
         try:
             s = C(day, ms)
-            if s.pack() != ref:
+            pk = s.pack()
+            if pk != ref:
                 anomaly = "pack"
             u = unpack(ref)
             if u.ccsds_days != day or u.ms_of_day != ms or not (u == s):
@@ -218,11 +350,16 @@ def sweep_light(rec: Rec, day, lo, hi):
                 anomaly = "views-differ"
             elif prev_us is not None and not (us > prev_us and dt > prev_dt):
                 anomaly = "mono"
+            elif held is not None and (held[0] != held[1] or held[2].ms_of_day != ms - 1 or held[2].as_datetime() != prev_dt
+                                       or held[3].ms_of_day != ms - 1 or held[3].as_datetime() != prev_dt):
+                anomaly = "independence"  # what the previous stamp handed out changed while this one was processed
         except Exception as e:
             anomaly = "exception:" + type(e).__name__
         if anomaly is None:
             prev_us, prev_dt = us, dt
+            held = (pk, ref, u, s)
             continue
+        held = None
         bad += 1
         if anomaly not in seen:
             seen.add(anomaly)
@@ -230,6 +367,10 @@ def sweep_light(rec: Rec, day, lo, hi):
             ev, nt, ops = rec.evaluations, rec.nontrivial, rec.ops
             if anomaly == "mono":
                 check_mono(rec, check_stamp(rec, day, ms - 1, light=True), check_stamp(rec, day, ms, light=True), (day, ms - 1), (day, ms))
+            elif anomaly == "independence":
+                k = Keep(rec)
+                check_stamp(rec, day, ms - 1, light=True, keep=k)
+                check_stamp(rec, day, ms, light=True, keep=k)
             else:
                 check_stamp(rec, day, ms, light=True)
             rec.evaluations, rec.nontrivial, rec.ops = ev, nt, ops
@@ -240,15 +381,15 @@ def sweep_light(rec: Rec, day, lo, hi):
     n = hi - lo
     rec.evaluations += n
     rec.nontrivial += sum(1 for ms in range(lo, hi) if not in_sweep(ms))
-    rec.ops += 5 * n
+    rec.ops += 7 * n
     rec.viol_count += bad
 
 
-def check_fromdt(rec: Rec, t):
+def check_fromdt(rec: Rec, t, nontrivial=True, keep=None):
     """t = [y, m, d, H, M, S, us] (UTC)"""
     C = _C()
     case = {"kind": "fromdt", "dt": list(t)}
-    rec.case(True, ops=3)
+    rec.case(nontrivial, ops=5)
     dt = datetime.datetime(*t, tzinfo=UTC)
     ed, ems, sub = R.from_datetime(dt)
     repro = f"CdsShortTimestamp.from_datetime(datetime.datetime{tuple(t)!r}.replace(tzinfo=datetime.timezone.utc))  # expected days={ed}, ms={ems}"
@@ -272,15 +413,40 @@ def check_fromdt(rec: Rec, t):
         return
     rec.outcome("fromdt:exact" if sub == 0 else "fromdt:sub-ms")
     try:
-        raw = bytes(s.pack())
+        packed = s.pack()
+        raw = bytes(packed)
     except Exception as e:
         rec.violation("C14.from_datetime/pack/exception/" + type(e).__name__, case, repr(e), None, repro=repro)
         return
     if raw != R.cds_short(gd, gms):
         rec.violation("C14.from_datetime/pack/octets", case, raw, R.cds_short(gd, gms), repro=repro)
+    # the views of the new stamp: exact for a whole-millisecond datetime; otherwise the sub-millisecond
+    # remainder of the given datetime may show (ASSUMPTIONS)
+    us, view = s.as_unix_seconds(), s.as_datetime()
+    exp_dt = R.as_datetime(gd, gms)
+    if sub == 0:
+        good = isinstance(view, datetime.datetime) and view.tzinfo is not None and view == exp_dt and R.unix_seconds_close(float(us), gd, gms)
+    else:
+        good = isinstance(view, datetime.datetime) and view.tzinfo is not None and ZERO <= view - exp_dt < ONE_MS and views_lenient_unix(us, gd, gms)
+    if not good:
+        rec.violation("C14.from_datetime/views/wrong-instant" + ("/pre-1970" if ed < R.UNIX_EPOCH_CCSDS_DAY else ""), case,
+                      (repr(us), repr(view)), (str(R.unix_seconds(gd, gms)), repr(exp_dt)), repro=repro)
+    if keep is not None:
+        keep.octets(packed, case)
+        keep.stamp(".from_datetime", s, case)
+        keep.recheck(case)
 
 
-def check_add(rec: Rec, d, ms, td, nontrivial=True):
+def views_lenient_unix(us, d, ms):
+    """exact <= us < exact + 1 ms (exact rational comparison), with the float tolerance on both sides"""
+    if not isinstance(us, (int, float)) or us != us or us in (float("inf"), float("-inf")):
+        return False
+    diff = Fraction(us) - R.unix_seconds(d, ms)
+    tol = Fraction(R.TOL_NUM, R.TOL_DEN)
+    return -tol <= diff < Fraction(1, 1000) + tol
+
+
+def check_add(rec: Rec, d, ms, td, nontrivial=True, keep=None):
     """td = (days, seconds, microseconds), non-negative"""
     C = _C()
     case = {"kind": "add", "d": d, "ms": ms, "td": list(td)}
@@ -308,7 +474,8 @@ def check_add(rec: Rec, d, ms, td, nontrivial=True):
         return
     rec.outcome("add:carry" if exp[0] > d + td[0] else "add:no-carry")
     try:
-        raw = bytes(r.pack())
+        packed = r.pack()
+        raw = bytes(packed)
     except Exception as e:
         rec.violation("C14.add/pack-after-add/exception/" + type(e).__name__, case, repr(e), None, repro=repro)
         return
@@ -318,6 +485,141 @@ def check_add(rec: Rec, d, ms, td, nontrivial=True):
     f = C(*exp)
     if r.as_datetime() != f.as_datetime() or r.as_unix_seconds() != f.as_unix_seconds():
         rec.violation("C14.add/views-after-add/stale", case, (repr(r.as_unix_seconds()), repr(r.as_datetime())), (repr(f.as_unix_seconds()), repr(f.as_datetime())), repro=repro)
+    if keep is not None:
+        keep.octets(packed, case)
+        keep.stamp(".__add__", r, case)  # the returned object; the left operand is not looked at again
+        keep.stamp("", f, case)
+        keep.recheck(case)
+
+
+# ------------------------------------------------------------------------ histories
+def hist_observe(rec, keep, case, obj, cur, lenient, after, mode, final):
+    """All observers on obj against the reference value of the model cur = (d, ms).
+    Returns False after the first violation of this history."""
+    d, ms = cur
+    tail = f"/after-{after}/observed-{'every-step' if mode == 'each' else 'at-the-end'}"
+    rec.ops += 7
+    try:
+        fields = (obj.ccsds_days, obj.ms_of_day)
+        packed = obj.pack()
+        raw = bytes(packed)
+        us = obj.as_unix_seconds()
+        dt = obj.as_datetime()
+        same = (obj == _C()(d, ms)) if final else True
+        misc = (bytes(obj.pfield), obj.len_packed)
+        alias = obj.as_date_time() if final else dt
+    except Exception as e:
+        rec.violation("C14.history/observer-exception/" + type(e).__name__ + tail, case, repr(e), cur)
+        return False
+    if keep is not None:
+        keep.octets(packed, case)
+    if fields != cur or not same or misc != (b"\x40", 7):
+        rec.violation("C14.history/fields" + tail, case, {"fields": fields, "eq_fresh": same, "pfield_len": misc}, cur)
+        return False
+    if raw != R.cds_short(d, ms):
+        rec.violation("C14.history/octets" + tail, case, raw, R.cds_short(d, ms))
+        return False
+    exp_dt = R.as_datetime(d, ms)
+    ok_dt = isinstance(dt, datetime.datetime) and dt.tzinfo is not None and dt.utcoffset() == ZERO
+    if lenient:
+        ok = ok_dt and ZERO <= dt - exp_dt < ONE_MS and views_lenient_unix(us, d, ms)
+    else:
+        ok = ok_dt and dt == exp_dt and isinstance(us, (int, float)) and R.unix_seconds_close(float(us), d, ms)
+    if not ok or alias != dt:
+        rec.violation("C14.history/views" + tail, case, {"as_unix_seconds": repr(us), "as_datetime": repr(dt), "as_date_time": repr(alias)},
+                      {"unix_seconds": str(R.unix_seconds(d, ms)), "datetime": repr(exp_dt), "sub_ms_remainder_allowed": lenient})
+        return False
+    return True
+
+
+def run_history(rec: Rec, kind, d, ms, steps, mode, nontrivial=True, keep=None, seen_states=None):
+    """One history on one object: start state `kind` with value (d, ms), then the mutator symbols
+    `steps`; mode 'each': observe before the first and after every step, 'end': only after the last."""
+    C = _C()
+    case = {"kind": "hist", "start": kind, "d": d, "ms": ms, "steps": [list(x) for x in steps], "mode": mode}
+    rec.case(nontrivial)
+    rec.traces += 1
+    cur = (d, ms)
+    lenient = False
+    ref0 = R.cds_short(d, ms)
+    try:
+        if kind == "construct":
+            obj = C(d, ms)
+        elif kind == "unpack":
+            obj = C.unpack(ref0)
+        elif kind == "read_from_raw":
+            obj = C.empty()
+            obj.read_from_raw(ref0)
+        elif kind == "from_datetime":
+            obj = C.from_datetime(R.as_datetime(d, ms))
+        elif kind == "from_datetime_subms":
+            obj = C.from_datetime(R.as_datetime(d, ms) + datetime.timedelta(microseconds=999))
+            lenient = True
+        else:
+            raise KeyError(kind)
+    except KeyError:
+        raise
+    except Exception as e:
+        rec.violation("C14.history/start/exception/" + type(e).__name__, case, repr(e), cur)
+        return
+    rec.ops += 1
+    if seen_states is not None:
+        seen_states.add(cur)
+    after = "start:" + kind
+    if (mode == "each" or not steps) and not hist_observe(rec, keep, case, obj, cur, lenient, after, mode, not steps):
+        return
+    for i, sym in enumerate(steps):
+        last = i == len(steps) - 1
+        rec.transitions += 1
+        rec.ops += 1
+        if sym[0] == "read":
+            after = "read_from_raw"
+            nxt = (sym[1], sym[2])
+            try:
+                obj.read_from_raw(R.cds_short(*nxt))
+            except Exception as e:
+                rec.violation("C14.history/read_from_raw/exception/" + type(e).__name__, case, repr(e), nxt)
+                return
+            lenient = False
+        else:
+            after = "__add__"
+            delta = step_delta(cur, sym)
+            nxt = R.add(cur[0], cur[1], delta)
+            try:
+                obj = obj + delta  # only the returned object is used from here on
+            except OverflowError:
+                if nxt is not None:
+                    rec.violation("C14.history/__add__/overflow-error-on-representable-result", case, "OverflowError at step %d" % i, nxt)
+                else:
+                    rec.outcome("hist:overflow")
+                    if seen_states is not None:
+                        seen_states.add("overflow")
+                return
+            except Exception as e:
+                rec.violation("C14.history/__add__/exception/" + type(e).__name__, case, repr(e), nxt or "OverflowError")
+                return
+            if nxt is None:
+                rec.violation("C14.history/__add__/no-overflow-error", case, (getattr(obj, "ccsds_days", None), getattr(obj, "ms_of_day", None)), "OverflowError at step %d" % i)
+                return
+        cur = nxt
+        if seen_states is not None:
+            seen_states.add(cur)
+        if (mode == "each" or last) and not hist_observe(rec, keep, case, obj, cur, lenient, after, mode, last):
+            return
+    rec.outcome("hist:%s:%s:len%d" % (kind, mode, len(steps)))
+    if keep is not None:
+        keep.stamp(".history-end", obj, case)
+        keep.recheck(case)
+
+
+def hist_cases(tier, kind, day, mode):
+    """(d, ms, steps) of one history shard, shortest histories first"""
+    out = []
+    for ms in BOUNDARY_MS:
+        for seq in histories((day, ms), hist_depth(tier, day, ms), every_length=(mode == "end")):
+            out.append((day, ms, seq))
+    out.sort(key=lambda c: len(c[2]))  # stable: simplest first
+    return out
 
 
 def _decode(entry, raw):
@@ -387,18 +689,34 @@ def add_product_cases():
 def run_shard(item):
     rec = Rec(PROPERTY, item)
     kind = item["kind"]
+    keep = Keep(rec)
     if kind == "days":
+        prod = set(add_product_cases())
+        listed = {(tuple(dt), tm) for dt in DATES for tm in TIMES}
+        n_dt = n_add = 0
         for d in range(item["lo"], item["hi"]):
-            sweep(rec, d, BOUNDARY_MS, lambda ms: True)
+            sweep(rec, d, BOUNDARY_MS, lambda ms: True, keep=keep)
             check_alias(rec, d, 43_200_000)
+            # every day of the range through from_datetime and through + (carry at midnight, day step)
+            for ms in EVERY_DAY_MS:
+                dt = R.as_datetime(d, ms)
+                t = [dt.year, dt.month, dt.day, dt.hour, dt.minute, dt.second, dt.microsecond]
+                check_fromdt(rec, t, nontrivial=((dt.year, dt.month, dt.day), (dt.hour, dt.minute, dt.second)) not in listed, keep=keep)
+                n_dt += 1
+            for ms, td in EVERY_DAY_ADDS:
+                check_add(rec, d, ms, td, nontrivial=(d, ms, td) not in prod, keep=keep)
+                n_add += 1
         rec.count("days_swept", item["hi"] - item["lo"])
+        rec.count("from_datetime_cases", n_dt)
+        rec.count("from_datetime_days_covered", item["hi"] - item["lo"])
+        rec.count("addition_cases", n_add)
         if item["lo"] == 4096:  # days 4096.. contain the Unix epoch (day 4383)
             rec.sample({"stamp": [4382, 999], "octets": R.cds_short(4382, 999), "datetime": repr(R.as_datetime(4382, 999)),
                         "unix_seconds": str(R.unix_seconds(4382, 999))}, limit=1)
     elif kind == "mssweep":
         part = D.chunks(sweep_ms(), item["parts"])[item["part"]]
         boundary = set(BOUNDARY_MS)
-        sweep(rec, item["day"], part, lambda ms: ms not in boundary)
+        sweep(rec, item["day"], part, lambda ms: ms not in boundary, keep=keep)
         rec.count("ms_sweep_stamps", len(part))
         if item["day"] == 0 and item["part"] == 0:
             rec.sample({"ms_sweep_day": item["day"], "first_ms": part[0], "last_ms": part[-1], "count": len(part)}, limit=1)
@@ -412,10 +730,10 @@ def run_shard(item):
         n = 0
         for tm in TIMES:
             for ms in range(1000):
-                check_fromdt(rec, list(date) + list(tm) + [ms * 1000])
+                check_fromdt(rec, list(date) + list(tm) + [ms * 1000], keep=keep)
                 n += 1
             for us in ODD_US:
-                check_fromdt(rec, list(date) + list(tm) + [us])
+                check_fromdt(rec, list(date) + list(tm) + [us], keep=keep)
                 n += 1
         rec.count("from_datetime_cases", n)
         t = list(date) + [23, 59, 59, 1000]
@@ -431,7 +749,7 @@ def run_shard(item):
             special = tuple(tm) in TIMES
             for ms in (0, 1, 500, 999):
                 rec_before = rec.nontrivial
-                check_fromdt(rec, list(date) + tm + [ms * 1000])
+                check_fromdt(rec, list(date) + tm + [ms * 1000], keep=keep)
                 if special:  # produced by the per-date shard already
                     rec.nontrivial = rec_before
                 n += 1
@@ -439,7 +757,7 @@ def run_shard(item):
     elif kind == "addprod":
         cases = add_product_cases()
         for d, ms, td in cases:
-            check_add(rec, d, ms, td)
+            check_add(rec, d, ms, td, keep=keep)
         rec.count("addition_cases", len(cases))
         rec.sample({"add": [65535, 86_399_999], "timedelta_d_s_us": [0, 0, 1000], "expected": "OverflowError"}, limit=1)
         rec.sample({"add": [0, 86_399_000], "timedelta_d_s_us": [0, 1, 0], "expected": [1, 0]}, limit=2)
@@ -453,7 +771,7 @@ def run_shard(item):
             ms = MS - 1 - back
             for delta in range(0, 2 * w + 1):
                 td = (0, delta // 1000, (delta % 1000) * 1000)
-                check_add(rec, d, ms, td, nontrivial=(d, ms, td) not in prod)
+                check_add(rec, d, ms, td, nontrivial=(d, ms, td) not in prod, keep=keep)
                 n += 1
         rec.count("addition_cases", n)
     elif kind == "refuse":
@@ -475,6 +793,26 @@ def run_shard(item):
         rec.count("refusal_cases", n)
         rec.count("pfields_that_must_be_refused", sum(1 for p in range(256) if R.pfield_must_be_refused(p)))
         rec.sample({"refuse": "P-field 0x44 (24-bit day segment)", "raw": bytes([0x44]) + bodies[1], "expected": "ValueError"}, limit=1)
+    elif kind == "hist":
+        cases = hist_cases(item["tier"], item["start"], item["day"], item["mode"])
+        seen_states = set()
+        for d, ms, seq in cases:
+            run_history(rec, item["start"], d, ms, seq, item["mode"], keep=keep, seen_states=seen_states)
+        rec.states = len(seen_states)
+        rec.count("histories", len(cases))
+        for n in sorted({len(c[2]) for c in cases}):
+            rec.count("histories_of_length_%d" % n, sum(1 for c in cases if len(c[2]) == n))
+        if item["start"] == "unpack" and item["day"] == 4382 and item["mode"] == "each":
+            steps = [["mid", 0], ["add", 0, 0, 999], ["read", 20000, 1000]]
+            vals = [(4382, 86_399_999)]
+            for sym in steps:
+                vals.append(model_step(vals[-1], sym))
+            rec.sample({"history": {"start": "unpack", "stamp": list(vals[0]), "steps": steps, "observed": "before the first and after every step"},
+                        "expected_values": [list(v) for v in vals]}, limit=1)
+    keep.flush()
+    if kind != "hist":
+        # engine V: a case is one execution; distinct cases are the states, compared library operations the transitions
+        rec.states, rec.transitions, rec.traces = rec.nontrivial, rec.ops, rec.evaluations
     return rec.result()
 
 
@@ -496,6 +834,8 @@ def replay(case):
         check_add(rec, case["d"], case["ms"], tuple(case["td"]))
     elif k == "refuse":
         check_refuse(rec, case["entry"], case["raw"])
+    elif k == "hist":
+        run_history(rec, case["start"], case["d"], case["ms"], case["steps"], case["mode"])
     return rec.result()
 
 
